@@ -73,6 +73,17 @@ def _drive(args):
             ev.append(pev('pvv', pin, pan, idx=idx, key=key, kind=kind, out=pinc.safe_digits(out_) if kind == 'ok' else ()))
             kind, out_ = call(lambda: pinc.Aes4(pin).to_pvv(key.hex(), key_index=idx, card_number=pan))
             ev.append(pev('pvv', pin, pan, idx=idx, key=key, kind=kind, out=pinc.safe_digits(out_) if kind == 'ok' else ()))
+        if tid % 3 == 1 and len(pan) >= 13:
+            # the PVV of objects REBUILT from block bytes (clear and encrypted): the object carries the same PIN and card
+            tk = bytes(r.randrange(256) for _ in range(16)).hex()
+            for what, make in (('from_bytes', lambda: pinc.Tdes0.from_bytes(pinc.Tdes0(pin, card_number=pan).to_bytes(), card_number=pan)),
+                               ('from_enc_bytes', lambda: pinc.Tdes0.from_enc_bytes(pinc.Tdes0(pin, card_number=pan).to_enc_bytes(tk), tk, card_number=pan)),
+                               ('from_bytes4', lambda: pinc.Aes4.from_bytes(pinc.Aes4(pin).to_bytes()))):
+                kind, out_ = call(lambda: (make().to_pvv(key.hex(), key_index=idx) if what != 'from_bytes4'
+                                           else make().to_pvv(key.hex(), key_index=idx, card_number=pan)))
+                e = pev('pvv', pin, pan, idx=idx, key=key, kind=kind, out=pinc.safe_digits(out_) if kind == 'ok' else ())
+                e['_observed'] = {'object': what, 'result': out_ if kind != 'ok' else None}
+                ev.append(e)
         # key check values and key components
         k16 = bytes(r.randrange(256) for _ in range((16, 24)[tid % 2]))
         ln = r.choice((6, 6, 4, 1, 16, r.randrange(1, 17)))
